@@ -156,7 +156,7 @@ def gen_options(rng):
     if rng.random() < 0.6:
         cfg["output.docstring_style"] = rng.choice(["reStructuredText", "NumPy", "Google", "Accessible", "Blank"])
     if rng.random() < 0.5:
-        cfg["output.max_line_length"] = rng.choice([50, 79, 120])
+        cfg["output.max_line_length"] = rng.choice([50, 79, 120, 20, 30])
     for kind in ("class_name", "field_name", "constant_name", "module_name", "package_name"):
         if rng.random() < 0.35:
             # class and field conventions that can yield the same identifier for a field and its inner
